@@ -1,4 +1,6 @@
 """C43 Combinators serialize concurrently emitting sources (TH engine)."""
+import os
+
 from simlib import th, vt
 from simlib.core import Outcome
 
@@ -89,11 +91,19 @@ class Work:
         n = len(sc["scripts"])
         subs = [Subject() for _ in range(n)]
         op = sc["op"]
+        self.inner_subscriptions = 0
         if op == "merge":
             obs = rx.merge(*subs)
         elif op in ("merge_all", "flat_map", "merge_mc"):
             outer = subs[0]
-            inners = subs[1:]
+
+            def counted(s_):
+                def factory(_sch):
+                    self.inner_subscriptions += 1
+                    return s_
+                return rx.defer(factory)
+
+            inners = [counted(s_) for s_ in subs[1:]]
             if op == "merge_all":
                 obs = outer.pipe(ops.map(lambda i: inners[i % len(inners)]), ops.merge_all())
             elif op == "flat_map":
@@ -146,10 +156,12 @@ class Prop:
     rule = ("2-3 Subject sources, each driven serially by its own controlled thread with a seeded script (0-4 elements, optional sleeps, "
             "completion or error), through merge, merge_all / flat_map / merge(max_concurrent) (outer sequence on its own thread too), zip, "
             "combine_latest, with_latest_from, amb and window_with_time(_or_count) on an event-loop scheduler thread; 0-3 forced "
-            "pre-emptions (site-first sampling over a dry run, focused on the operator's files). Checked: (a) no thread enters the "
+            "pre-emptions (site-first sampling over a dry run, focused on the operator's files); 5% of the scenarios get a single-pre-emption "
+            "sweep instead (one run per change point of the operator's files, up to 120). Checked: (a) no thread enters the "
             "subscriber's on_next/on_error/on_completed (the downstream auto-detach observer, traced at call/return) while another "
             "thread is inside; (b) no thread enters a user callback while another is inside; (c) every recorder (root and windows) sees "
-            "on_next* (on_error|on_completed)?; (d) no deadlock; (e) window_with_time_or_count: every window but the last is full or at least "
+            "on_next* (on_error|on_completed)?; (d) no deadlock; (d') merge_all / flat_map / merge(max_concurrent): an output that completed has subscribed every inner sequence "
+            "it was handed; (e) window_with_time_or_count: every window but the last is full or at least "
             "the time span old when it closes (a stale timer of an earlier window must not close a later one). Distinct = (operator, scripts, context-switch sequence); non-trivial = a "
             "forced pre-emption fired and at least two source threads delivered something.")
     assumptions = ["each source emits serially from its own thread (the statement's precondition)", "line-level pre-emption granularity"]
@@ -161,7 +173,9 @@ class Prop:
              "window_with_time": ("_windowwithtime.py",), "window_with_time_or_count": ("_windowwithtimeorcount.py",)}
 
     def generate(self, rng, tier):
-        op = rng.choice(OPS)
+        op = rng.choice(OPS + ["merge_mc", "merge_mc", "merge_all", "flat_map"])  # the operators with the most shared state get a larger share
+        if os.environ.get("VERIF_C43_OP"):
+            op = os.environ["VERIF_C43_OP"]  # (experiments only) concentrate a run on one operator
         n = rng.choice([2, 2, 3])
         scripts = []
         for i in range(n):
@@ -172,7 +186,7 @@ class Prop:
                     ev.append(["sleep", rng.choice([1, 3, 6])])
             ev.append([rng.choice(["C", "C", "E"])])
             scripts.append(ev)
-        sc = {"op": op, "scripts": scripts, "sched": th.gen_sched(rng, ks=(1, 2, 2, 3, 3))}
+        sc = {"op": op, "scripts": scripts, "sched": th.gen_sched(rng, ks=(1, 2, 2, 3, 3), sweep_p=0.05)}
         if op == "merge_mc":
             sc["mc"] = rng.choice([1, 2])
         if op.startswith("window"):
@@ -181,6 +195,8 @@ class Prop:
         return sc
 
     def execute(self, sc):
+        if sc["sched"].get("sweep") and "cps" not in sc:
+            return th.sweep(self.execute, sc)
         out = Outcome()
         holder = {}
 
@@ -214,6 +230,13 @@ class Prop:
                 if k in "EC" and i != len(ks) - 1:
                     bad("grammar", "recorder %s received %r" % (r.name, ks))
                     break
+        if sc["op"] in ("merge_all", "flat_map", "merge_mc") and not sim.failure and not sim.thread_errors:
+            # the merged output completes only after every inner sequence it was handed has completed: all of them were subscribed
+            root_kinds = "".join(e[1] for e in w.recs[0].events)
+            handed = sum(1 for e in sc["scripts"][0] if e[0] == "N")
+            if root_kinds.endswith("C") and w.inner_subscriptions != handed:
+                bad("inner-never-subscribed", "the output completed although only %d of the %d inner sequences handed to it were ever subscribed" % (w.inner_subscriptions, handed))
+            out.probes["inner_subscriptions_checked"] += 1
         if sc["op"] == "window_with_time_or_count":
             # a window other than the last one was closed by its rule: it is full, or at least `span` old (timers never fire early)
             span_us, cnt = int(round(sc.get("span", 0.005) * 1e6)), sc.get("count", 2)
